@@ -83,7 +83,7 @@ package webrtc
 
 //@ func (*PeerConnection).setDescription
 //@ props C01 C02 C03
-//@ requires pcValid(pc) && sd != nil
+//@ requires pcValid(pc) && sd != nil && ghost(qhead) <= ghost(qtail) && ghost(qtail) < 1<<62
 //@ requires validSignalingState(pc.signalingState) && specDescInv(pc)
 //@ observe old(pc.signalingState)
 //@ observe old(sd.Type)
@@ -802,14 +802,14 @@ package webrtc
 //@ props C03
 //@ nosafety
 //@ deadreturn 8
-//@ requires pcValid(pc) && validSignalingState(pc.signalingState) && specDescInv(pc)
+//@ requires pcValid(pc) && validSignalingState(pc.signalingState) && specDescInv(pc) && ghost(qhead) <= ghost(qtail) && ghost(qtail) < 1<<61
 //@ atreturn assert err != nil ==> pc.signalingState == old(pc.signalingState) && ghost(sigEvents) == old(ghost(sigEvents)) && pc.pendingLocalDescription == old(pc.pendingLocalDescription) && pc.pendingRemoteDescription == old(pc.pendingRemoteDescription) && pc.currentLocalDescription == old(pc.currentLocalDescription) && pc.currentRemoteDescription == old(pc.currentRemoteDescription)
 
 //@ func (*PeerConnection).SetLocalDescription
 //@ props C03
 //@ nosafety
 //@ deadreturn 2
-//@ requires pcValid(pc) && validSignalingState(pc.signalingState) && specDescInv(pc)
+//@ requires pcValid(pc) && validSignalingState(pc.signalingState) && specDescInv(pc) && ghost(qhead) <= ghost(qtail) && ghost(qtail) < 1<<61
 //@ atreturn assert err != nil ==> pc.signalingState == old(pc.signalingState) && ghost(sigEvents) == old(ghost(sigEvents)) && pc.pendingLocalDescription == old(pc.pendingLocalDescription) && pc.pendingRemoteDescription == old(pc.pendingRemoteDescription) && pc.currentLocalDescription == old(pc.currentLocalDescription) && pc.currentRemoteDescription == old(pc.currentRemoteDescription)
 
 // Outside C03's quantifier ("every class of invalid description"): failures of transport
